@@ -58,7 +58,14 @@ fn layout(rng: &mut Rng, secs: &[(String, Vec<(String, String)>)], wild: bool) -
 
 pub fn run(rec: &mut Recorder, w: &mut World, tier: &str, seed: u64) {
     let mut rng = Rng::new(seed);
-    let ks = kinds();
+    let mut ks = kinds();
+    // matchers whose text contains token-like substrings outside any token ("r_" / "p_" inside a literal,
+    // an attribute named like a token) - what un-escaping must leave alone
+    {
+        let mut k = ks[0].clone(); k.name = "acl-tokenlike-literals";
+        k.m = crate::ast::or(k.m.clone(), crate::ast::or(crate::ast::eq(crate::ast::Ex::R(0), crate::ast::Ex::LitS("super_admin".into())), crate::ast::eq(crate::ast::Ex::R(1), crate::ast::Ex::LitS("p_sub r_obj".into()))));
+        ks.push(k);
+    }
     let n_layout = (if tier == "thorough" { 60 } else { 8 }) * rec.budget as usize;
     // ---- (a) layout independence of model definitions ----
     for k in &ks { for (ename, eff) in EFFECTS.iter() {
